@@ -351,6 +351,7 @@ package wire
 //@     invariant [no-overwrite] {C18} (wa <= old(#alloc) && Exposed(old(r.Reader.Msg), wa, wi)) ==> mem(wa, wi) == old(mem(wa, wi))
 //@     invariant [stays-exposed] {C18} (wa <= old(#alloc) && Exposed(old(r.Reader.Msg), wa, wi)) ==> Exposed(r.Reader.Msg, wa, wi)
 //@     invariant [alloc-bound] #maxalloc <= max(old(#maxalloc), max(r.Reader.MaxMessageSize, 4096))
+//@     decreases streamlen(r.Reader.Buffer) - r.Reader.Buffer.#pos
 
 //@ func NewScanner
 //@   props C14 C04
@@ -924,6 +925,7 @@ package wire
 //@   loop 0
 //@     invariant [ok] WriterReady(writer) && params != nil && params > old(#alloc)
 //@     invariant [count] #nOut == old(#nOut) + $visited && #nZ == old(#nZ) && #nE == old(#nE) && (#nOut > old(#nOut) ==> #last == 'S')
+//@     decreases len(params) - $visited
 
 //@ func (*Server).sslUnsupported
 //@   props C11 C12 C02 C03 C04
